@@ -496,7 +496,12 @@ pub fn child_main() {
                     progress(j as u32);
                     sys::set_alarm(10);
                     let (idx, flags, prog) = &lines[idxs[j]];
-                    let l = eval_line(&vm, prog, flags.contains('W'));
+                    let l = if flags.contains('F') {
+                        let fresh = warm_vm(flags.contains('P'));
+                        eval_line(&fresh, prog, flags.contains('W'))
+                    } else {
+                        eval_line(&vm, prog, flags.contains('W'))
+                    };
                     use std::io::Write;
                     let _ = chan.write_all(format!("{}\t{}\n", idx, l).as_bytes());
                 }
@@ -605,6 +610,12 @@ pub const PROGRAMS: &[(&str, &str)] = &[
     ("array-index-oob", "(import! std.array.prim).index [1, 2] 5\n"),
     ("undefined-variable", "xyz\n"),
     ("undefined-import", "import! std.does_not_exist\n"),
+    ("import-path-prim-first-prelude", "let m = import! std.path.prim\nm.is_absolute \"/\"\n"),
+    ("import-fs-prim-first-prelude", "let m = import! std.fs.prim\n1\n"),
+    ("import-regex-prim-first-prelude", "let m = import! std.regex.prim\n1\n"),
+    ("import-random-prim-first", "let m = import! std.random.prim\n1\n"),
+    ("import-st-string-prim-first", "let m = import! std.effect.st.string.prim\n1\n"),
+    ("import-io-prim-first-prelude", "let m = import! std.io.prim\n1\n"),
 ];
 
 pub fn run(args: &Args, out: &mut Out) {
@@ -705,8 +716,8 @@ pub fn run(args: &Args, out: &mut Out) {
     drop(vm);
     let mut programs: Vec<(String, String)> = cases.iter().map(|c| (c.flags.clone(), c.program.clone())).collect();
     let n_prim = programs.len();
-    for (_, p) in PROGRAMS {
-        programs.push(("NRI".into(), p.to_string()));
+    for (name, p) in PROGRAMS {
+        programs.push((if name.ends_with("-prelude") { "PRIF" } else { "NRIF" }.into(), p.to_string()));
     }
     let results = run_isolated(&programs);
     let mut bad = 0;
@@ -783,13 +794,13 @@ pub fn run(args: &Args, out: &mut Out) {
             out.oracle_fail(
                 &format!("panic:{}:{}", site, name),
                 &format!("evaluating the program {:?} panics inside gluon ({})", prog, detail),
-                serde_json::json!({"kind": "prim", "name": format!("program:{}", name), "program": prog, "flags": "NR"}),
+                serde_json::json!({"kind": "prim", "name": format!("program:{}", name), "program": prog, "flags": if name.ends_with("-prelude") { "PRIF" } else { "NRIF" }}),
             );
         } else if is_abort(class) || class == "not-run" {
             out.oracle_fail(
                 &format!("abort:program:{}", name),
                 &format!("evaluating the program {:?} and holding its result kills the host process ({})", prog, class),
-                serde_json::json!({"kind": "prim", "name": format!("program:{}", name), "program": prog, "flags": "NR"}),
+                serde_json::json!({"kind": "prim", "name": format!("program:{}", name), "program": prog, "flags": if name.ends_with("-prelude") { "PRIF" } else { "NRIF" }}),
             );
         }
     }
